@@ -173,6 +173,23 @@ Definition ppow (o : opts) (a : parr) (e : nat) : res parr :=
                          [:: [:: 0%N]] [:: nseq (psize a) 1])
         (fun one => ppow_fold o e (Ok one) a).
 
+(* power.py, array of exponents: raise to each distinct exponent once, keep the elements that ask
+   for it (mask), accumulate *)
+Definition mask_poly (se es : seq nat) (k : nat) : parr :=
+  Parr [:: 0%N] se [:: [:: 0%N]] [:: [seq (if e == k then 1 else 0) | e <- es]].
+
+Definition ppow_arr (o : opts) (x : parr) (se es : seq nat) : res parr :=
+  match bshape (shape x) se with
+  | None => Err ValueError
+  | Some s =>
+      foldl (fun acc k =>
+               rbind acc (fun a =>
+               rbind (ppow o x k) (fun xk =>
+               rbind (pmul o xk (mask_poly se es k)) (fun t => padd o a t))))
+            (Ok (Parr [:: 0%N] s [:: [:: 0%N]] [:: zeros (prodn s)]))
+            (sort leq (undup es))
+  end.
+
 (* ---- expression trees over the ring operators (C01) ---------------------------- *)
 Inductive expr :=
   | Leaf of parr
